@@ -36,6 +36,10 @@ def map (f : α → β) (x : NDArray α) : NDArray β := ⟨x.shape, x.data.map 
 def zipSame (f : α → β → γ) (x : NDArray α) (y : NDArray β) : NDArray γ :=
   ⟨x.shape, List.zipWith f x.data y.data⟩
 
+/-- `x += y` of NumPy on arrays of the same shape (the engine only ever adds a kernel result of
+    the operand's shape into the operand's buffer) -/
+instance [Add α] : Add (NDArray α) := ⟨zipSame (· + ·)⟩
+
 /-- `out[j] = x[φ j]` -/
 def gather [Zero α] (outShape : Shape) (φ : Idx → Idx) (x : NDArray α) : NDArray α :=
   ofFn outShape (fun j => x.get (φ j))
